@@ -392,3 +392,27 @@ def some_payload(prog, t):
             if len(fs) == 1 and not any(b["term"]["k"] == "return" for b in fs[0].blocks):
                 return strip(t[2][0])
     return None
+
+
+_NEG = {"Lt": "Ge", "Le": "Gt", "Gt": "Le", "Ge": "Lt", "Eq": "Ne", "Ne": "Eq"}
+_MIRROR = {"Lt": "Gt", "Le": "Ge", "Gt": "Lt", "Ge": "Le", "Eq": "Eq", "Ne": "Ne"}
+
+
+def relation(c, val, lhs):
+    """the comparison a branch fact (c, val) states about `lhs`, as (op, other) with lhs on the left:
+    handles a false outcome (negated operator), mirrored operands and !(..)"""
+    c = strip(c)
+    truthy = val != "0"
+    while isinstance(c, tuple) and c and c[0] == "un" and c[1] == "Not":
+        c = strip(c[2])
+        truthy = not truthy
+    if not (isinstance(c, tuple) and c and c[0] == "bin" and c[1] in _NEG):
+        return None
+    op, a, b = c[1], strip(c[2]), strip(c[3])
+    if not truthy:
+        op = _NEG[op]
+    if a == lhs:
+        return op, b
+    if b == lhs:
+        return _MIRROR[op], a
+    return None
